@@ -2782,8 +2782,16 @@ class FuncIsinstanceMonad(FuncMonad):
         discr_attr = entity._discriminator_attr_
         assert discr_attr is not None
         discr_values = [ [ 'VALUE', cls._discriminator_ ] for cls in subclasses ]
+        can_be_none = isinstance(obj, ObjectAttrMonad) and obj.nullable
+        if can_be_none:  # the row that holds an empty reference should not be lost in the join
+            sqlquery = obj.tableref.sqlquery
+            sqlquery.translator.left_join = sqlquery.left_join = True
+            sqlquery.from_ast[0] = 'LEFT_JOIN'
         alias, pk_columns = obj.tableref.make_join(pk_only=False)  # discriminator column is in the entity table
-        sql = [ 'IN', [ 'COLUMN', alias, discr_attr.column ], discr_values ]
+        discr_column = [ 'COLUMN', alias, discr_attr.column ]
+        sql = [ 'IN', discr_column, discr_values ]
+        if can_be_none:  # isinstance(None, cls) is False, not unknown, so that `not isinstance(None, cls)` is True
+            sql = [ 'AND', [ 'IS_NOT_NULL', discr_column ], sql ]
         return BoolExprMonad(sql, nullable=False)
 
 
